@@ -83,7 +83,7 @@ func VerifC12(args []string) {
 			case OpExecEvent:
 				d, isOp := ev.Data.(OpEventData)
 				vfAssert(isOp, "OP_EXEC event carries OpEventData")
-				if d.OpName == "p" || d.OpName == "q" {
+				if d.OpName == "p" || d.OpName == "q" || d.OpName == "z" {
 					custom = append(custom, d)
 				}
 				if !vfIsBoolOpName(d.OpName) {
@@ -156,13 +156,16 @@ func vfEventMatches(d OpEventData, r vfRec) bool {
 	}
 	eq := true
 	if r.nargs > 0 {
-		eq = eq && d.Params[0] == r.a0
+		e0 := vfValueEq(d.Params[0], r.a0)
+		eq = eq && e0
 	}
 	if r.nargs > 1 {
-		eq = eq && d.Params[1] == r.a1
+		e1 := vfValueEq(d.Params[1], r.a1)
+		eq = eq && e1
 	}
 	if !r.failed {
-		eq = eq && d.Res == r.res
+		e2 := vfValueEq(d.Res, r.res)
+		eq = eq && e2
 	}
 	return eq
 }
